@@ -21,9 +21,9 @@ class Inv:
         # limb excess (bits above nominal width) per owning type
         self.FE_BITS = {
             "param": 3.0 if backend == "u64" else 1.75,          # kernel precondition: < 2^54 / b < 1.75
-            "curve25519_dalek::edwards::EdwardsPoint": 1.0 if backend == "u64" else 0.5,
-            "curve25519_dalek::backend::serial::curve_models::ProjectivePoint": 1.0 if backend == "u64" else 0.5,
-            "curve25519_dalek::montgomery::ProjectivePoint": 1.0 if backend == "u64" else 0.5,
+            "curve25519_dalek::edwards::EdwardsPoint": 1.0 if backend == "u64" else 0.01,
+            "curve25519_dalek::backend::serial::curve_models::ProjectivePoint": 1.0 if backend == "u64" else 0.01,
+            "curve25519_dalek::montgomery::ProjectivePoint": 1.0 if backend == "u64" else 0.01,
             "curve25519_dalek::backend::serial::curve_models::CompletedPoint": 3.0 if backend == "u64" else 1.75,
             "curve25519_dalek::backend::serial::curve_models::ProjectiveNielsPoint": 2.0 if backend == "u64" else 1.6,
             "curve25519_dalek::backend::serial::curve_models::AffineNielsPoint": 2.0 if backend == "u64" else 1.6,
@@ -169,7 +169,14 @@ class Driver:
             top = L >> (29 * 8)
             bound = ("st", (("arr", (I(0, 2**29 - 1),) * 8 + (I(0, top),)),))
             rx = r"backend::serial::(u32|fiat_u32)::scalar::Scalar29::sub$"
-        return [(re.compile(rx), bound, "A1: Scalar::sub result < l")]
+        out = [(re.compile(rx), bound, "A1: Scalar::sub result < l")]
+        if self.backend == "u32":
+            # A2: the 17 outputs of the Karatsuba Scalar29::mul_internal / square_internal are the true column sums
+            # sum_{i+j=k} a_i*b_j (the wrapping intermediates cancel): at most min(k+1,17-k) products of 29-bit limbs
+            cols = ("arr", tuple(I(0, min(k + 1, 17 - k) * (2**29 - 1) ** 2) for k in range(17)))
+            out.append((re.compile(r"backend::serial::(u32|fiat_u32)::scalar::Scalar29::(mul_internal|square_internal)$"), cols,
+                        "A2: Scalar29 Karatsuba column sums are the true sums (< 9*2^58)"))
+        return out
 
     def root_candidates(self, module_rx, exclude_rx=None):
         out = []
